@@ -35,26 +35,71 @@ func init() {
 	})
 }
 
-// batchEnumerator: storage method taking *Batch and returning []tableID.
+// batchEnumerator: the function that lists the tables a batch selects. It returns []tableID and is handed the batch:
+// either a *Batch parameter, or - called from a function that has a Batch parameter - arguments taken from the batch
+// (its filter and relations).
 func batchEnumerator(c *core.Ctx) *core.Func {
-	for _, f := range c.M.Funcs {
-		if f.Sig == nil || f.Sig.Params().Len() != 1 || f.Sig.Results().Len() != 1 {
-			continue
+	m := c.M
+	listsTables := func(f *core.Func) bool {
+		if f.Sig == nil || f.Sig.Results().Len() != 1 {
+			return false
 		}
-		if isPtrTo(f.Sig.Params().At(0).Type(), "Batch") {
-			if sl, ok := f.Sig.Results().At(0).Type().(*types.Slice); ok && core.NamedName(sl.Elem()) == "tableID" {
-				return f
-			}
+		sl, ok := f.Sig.Results().At(0).Type().(*types.Slice)
+		return ok && core.NamedName(sl.Elem()) == "tableID"
+	}
+	for _, f := range m.Funcs {
+		if listsTables(f) && f.Sig.Params().Len() == 1 && isPtrTo(f.Sig.Params().At(0).Type(), "Batch") {
+			return f
 		}
 	}
-	return nil
+	isBatch := func(t types.Type) bool {
+		if p, ok := t.(*types.Pointer); ok {
+			t = p.Elem()
+		}
+		return core.NamedName(t) == "Batch"
+	}
+	votes := map[*core.Func]int{}
+	for _, cs := range m.CallSites() {
+		if !listsTables(cs.Callee) || cs.Caller.Sig == nil || cs.Callee.Recv != "storage" {
+			continue
+		}
+		var bp *types.Var
+		for i := 0; i < cs.Caller.Sig.Params().Len(); i++ {
+			if isBatch(cs.Caller.Sig.Params().At(i).Type()) {
+				bp = cs.Caller.Sig.Params().At(i)
+			}
+		}
+		if bp == nil {
+			continue
+		}
+		fromBatch := 0
+		for _, a := range cs.Call.Args {
+			ast.Inspect(m.Inline(a), func(n ast.Node) bool {
+				if id, ok := n.(*ast.Ident); ok && m.Info.ObjectOf(id) == bp {
+					fromBatch++
+					return false
+				}
+				return true
+			})
+		}
+		if fromBatch > 0 && fromBatch == len(cs.Call.Args) {
+			votes[cs.Callee]++
+		}
+	}
+	var best *core.Func
+	for f, n := range votes {
+		if best == nil || n > votes[best] || (n == votes[best] && f.Pos() < best.Pos()) {
+			best = f
+		}
+	}
+	return best
 }
 
 func c06r1(c *core.Ctx) {
 	m := c.M
 	enum := batchEnumerator(c)
 	if enum == nil {
-		c.Undecide("C06/R1", "enumerator role", "no function (*Batch) []tableID")
+		c.Undecide("C06/R1", "enumerator role", "no function that lists the tables selected by a batch")
 		return
 	}
 	res := m.NeverAfter(core.OrderSpec{
@@ -505,15 +550,23 @@ func c06r4(c *core.Ctx) {
 	enum := batchEnumerator(c)
 	n := 0
 	for _, f := range m.Funcs {
-		recycles := false
-		core.InspectNoLits(f.Body, func(x ast.Node) bool {
-			if call, ok := x.(*ast.CallExpr); ok {
-				if k, cal, _ := m.Callee(call); k == core.CallStatic && a.PoolRecycle[cal] {
-					recycles = true
+		// recycles entities, itself or through a helper
+		var recyclesIn func(g *core.Func, depth int) bool
+		recyclesIn = func(g *core.Func, depth int) bool {
+			found := false
+			core.InspectNoLits(g.Body, func(x ast.Node) bool {
+				if call, ok := x.(*ast.CallExpr); ok && !found {
+					if k, cal, _ := m.Callee(call); k == core.CallStatic && cal != nil {
+						if a.PoolRecycle[cal] || (depth < 2 && cal.Body != nil && cal.Recv != "entityPool" && recyclesIn(cal, depth+1)) {
+							found = true
+						}
+					}
 				}
-			}
-			return true
-		})
+				return !found
+			})
+			return found
+		}
+		recycles := recyclesIn(f, 0)
 		if !recycles || enum == nil {
 			continue
 		}
